@@ -128,7 +128,9 @@ impl Group for C14 {
                 let depth = rng.range(1, (plan.blocks.len() as u64).min(6));
                 for _ in 0..depth {
                     let blk = plan.blocks.pop().unwrap();
-                    ops.push(line("remove", "c", &blk));
+                    // streamed removal only where the source can accept it (finding F17, see C13)
+                    let del = if super::c13::REMOVE_EXPECTS_TIP_HASH && rng.chance(1, 3) { "s" } else { "c" };
+                    ops.push(line("remove", del, &blk));
                 }
                 let readd = rng.range(0, depth + 1);
                 for _ in 0..readd {
@@ -169,7 +171,7 @@ impl Group for C14 {
                     let wd = w.as_mut().expect("init first");
                     let ids: Vec<u64> = rest.iter().map(|tk| parse_token_id(tk)).collect();
                     let streamed = *delivery == "s";
-                    let r = if *dir == "add" { wd.add_block(&ids, streamed) } else { wd.remove_block(&ids) };
+                    let r = if *dir == "add" { wd.add_block(&ids, streamed) } else { wd.remove_block_with(&ids, streamed) };
                     match r {
                         StepResult::Panic(msg) => {
                             dead = true;
@@ -198,7 +200,7 @@ impl Group for C14 {
                                 if ids.contains(&F) && (ids.contains(&U) || ids.contains(&M)) { co.tags.insert("funding+close-one-block".into()); }
                             } else {
                                 chain.pop();
-                                co.tags.insert("remove".into());
+                                co.tags.insert(format!("remove:{}", if streamed { "streamed" } else { "compact" }));
                                 if ids.iter().any(|x| *x < X0) {
                                     relevant_reorg = true;
                                     co.tags.insert("remove:relevant".into());
@@ -246,6 +248,9 @@ impl Group for C14 {
                 _ => "bad-op".to_string(),
             };
             co.out.push(l);
+        }
+        if w.as_ref().map(|x| x.filter_false_positives > 0).unwrap_or(false) {
+            co.tags.insert("filter-false-positive:delivered-streamed".into());
         }
         co.nontrivial = relevant_reorg;
         co
